@@ -89,6 +89,71 @@ ux_struct!(S4, S4Owned, S4Sized, S4Init, sized { k: u8 }, fields { e: E1, s: Set
 ux_struct!(S5, S5Owned, S5Sized, S5Init, sized { v: bool }, fields { e: E1, st: UnsizedString<u8> });
 ux_struct!(S6, S6Owned, S6Init, fields { tail: RemainingBytes });
 
+/// A GENERIC `#[unsized_type]` struct: for generic structs the macro writes the sized part's
+/// `CheckedBitPattern` impl itself (`struct_impl.rs` `sized_bytemuck_derives`) instead of deriving it.
+#[unsized_type(skip_idl)]
+pub struct G1<A: star_frame::unsize::impls::UnsizedGenerics, B>
+where
+    B: UnsizedType + ?Sized,
+{
+    pub flag: bool,
+    pub a: A,
+    #[unsized_start]
+    pub items: List<A, u8>,
+    pub b: B,
+}
+
+mod generic_impls {
+    use super::*;
+    use crate::ux::{InitK, R};
+    use star_frame::unsize::impls::UnsizedGenerics;
+    impl<A: Fx + UnsizedGenerics, B: Ux + ?Sized> WithInit for G1<A, B>
+    where
+        B: UnsizedInit<DefaultInit>,
+        G1Sized<A, B>: UnsizedInit<DefaultInit>,
+    {
+        fn with_init<K: InitK<Self>>(a: &Init, k: K) -> Option<K::Out> {
+            match a {
+                Init::Default => Some(k.go(DefaultInit)),
+                _ => None,
+            }
+        }
+    }
+    impl<A: Fx + UnsizedGenerics, B: Ux + ?Sized> Ux for G1<A, B>
+    where
+        B: UnsizedInit<DefaultInit>,
+        G1Sized<A, B>: UnsizedInit<DefaultInit>,
+    {
+        fn shape() -> Shape {
+            Shape::Struct(vec![Fixed::Bool, A::fshape()], vec![<List<A, u8> as Ux>::shape(), B::shape()])
+        }
+        fn to_val(o: &G1Owned<A, B>) -> Val {
+            let mut sz = o.flag.to_b();
+            sz.extend({ o.a }.to_b());
+            Val::Record(sz, vec![<List<A, u8> as Ux>::to_val(&o.items), B::to_val(&o.b)])
+        }
+        fn from_val(v: &Val) -> Option<G1Owned<A, B>> {
+            let Val::Record(sz, vs) = v else { return None };
+            if sz.len() != 1 + std::mem::size_of::<A>() || vs.len() != 2 {
+                return None;
+            }
+            Some(G1Owned { flag: Fx::from_b(&sz[..1])?, a: A::from_b(&sz[1..])?, items: <List<A, u8> as Ux>::from_val(&vs[0])?, b: B::from_val(&vs[1])? })
+        }
+        fn view(m: Mode, p: &G1<A, B>) -> R<Val> {
+            let sz: &G1Sized<A, B> = p;
+            crate::ux::touch(sz);
+            Ok(Val::Record(bytemuck::bytes_of(sz).to_vec(), vec![<List<A, u8> as Ux>::view(m, &p.items)?, B::view(m, &p.b)?]))
+        }
+        fn view_mut(p: &mut G1<A, B>) -> R<Val> {
+            let szb = {
+                let sz: &mut G1Sized<A, B> = p;
+                bytemuck::bytes_of(sz).to_vec()
+            };
+            Ok(Val::Record(szb, vec![<List<A, u8> as Ux>::view_mut(&mut p.items)?, B::view_mut(&mut p.b)?]))
+        }
+    }
+}
+
 // program accounts
 #[unsized_type(program_account, skip_idl)]
 pub struct Acct1 {
@@ -455,6 +520,8 @@ pub fn registry() -> Registry {
         e!("T27", UnsizedList<UnsizedMap<u8, S1x>>),
         e!("T28", List<PackedValue<u64>, u64>),
         e!("T29", UnsizedList<List<u8, u32>>),
+        e!("T30", G1<Color, UnsizedList<List<u8, u8>>>),
+        e!("T31", UnsizedList<G1<Rec1, UnsizedString<u8>>>),
         ("A01", Box::new(AcctEntry::<Acct1>::new()) as Box<dyn DynType>),
         ("A02", Box::new(AcctEntry::<Acct2>::new()) as Box<dyn DynType>),
     ]
